@@ -11,7 +11,7 @@ packet and a field of the specified wire type. id-field: the field an identifier
 field it is encoded from (decoder's struct literal vs encoder's emission), for every packet type.
 wire-order: for 18 packet types the longest success path of the encoder and of the decoder are reduced to sequences of wire tokens (u8/u16/u32/str/bin/varint/PROPS/loops) with the struct field at each position, and must be equal (same types in the same order, same field where both sides name one) and equal to the layout transcribed from the specification (spec/mqtt_layouts.json). connect-flags: the CONNECT flag bits equal the specification, the encoder only accumulates bits into one flags value (never re-assigns it) and sets each bit for the field the decoder reads under that bit. layout-size: the symbolic size/emission equivalence of C09 (every encode writes exactly the fields its
 size function counts) and frame exhaustion of C02 (decoders accept a frame only when all of its bytes
-were read) are imported. Equality of concrete values after a round trip is not decided. decode-schema (continued): the arm of a property that may appear several times contains no refusal decided by how many values were already collected. decode-schema (continued): the decoders of DISCONNECT and of the PUBACK family read the reason code and the property block only on a has_remaining() edge with nothing consumed in between (the short forms of MQTT 5 stay decodable).
+were read) are imported. Equality of concrete values after a round trip is not decided. decode-schema (continued): the arm of a property that may appear several times contains no refusal decided by how many values were already collected. decode-schema (continued): the decoders of DISCONNECT and of the PUBACK family read the reason code and the property block only on a has_remaining() edge with nothing consumed in between (the short forms of MQTT 5 stay decodable). decode-schema (continued): no arm of a property loop tests the slot of another property (decoding does not depend on property order). encode-schema (continued): no MQTT 5 packet encoder reports Ok without having written into the buffer.
 """
 import os, json
 from facts import *
